@@ -185,6 +185,43 @@ def py_values_raw(ctx, rep, rule):
         rep.violation(rule, "floor-bytes-values", "%d of the 3 conversions found" % n)
 
 
+def request_decoder_rejections(ctx, rep, rule):
+    """The library's own decoders of the request PDUs read back whatever the encoders wrote: SnmpGetBulk::try_from refuses a
+    PDU for its structure only (a decoder's error, trailing octets), never for the *value* of request-id, non-repeaters or
+    max-repetitions - the encoder writes any i64 the caller put there (max-repetitions 0 is what a default GetIter asks
+    for); SnmpGet::try_from refuses a value only through the two `is_zero()` tests of error-status / error-index."""
+    facts = ctx.facts
+    n = 0
+    for path, allow_zero in (("<snmp::getbulk::SnmpGetBulk<'a> as std::convert::TryFrom<&'a [u8]>>::try_from", False),
+                             ("<snmp::get::SnmpGet<'a> as std::convert::TryFrom<&'a [u8]>>::try_from", True)):
+        body = facts.body(path)
+        if body is None:
+            rep.missing(rule, path)
+            continue
+        n += 1
+        prov = flow.Prov(body)
+        errs = flow.blocks_assigning_return(body, lambda rv: rv["k"] == "agg" and rv.get("vname") == "Err")
+
+        def decoded_value(t):
+            # (from_ber(..)? as Continue).0.1 : the value component of a decoder's result (the .0 component is the rest of the input)
+            return t[0] == "f" and t[2] == "1" and t[1][0] == "f" and t[1][2] == "0" and \
+                flow.mentions(t[1][1], lambda s_: s_[0] == "call" and (s_[1] or "").endswith("::from_ber"))
+        short = path.split(" as ")[0].lstrip("<").split("::")[-1].split("<")[0]
+        bad = None
+        for g, pol, tgt in flow.deciding_guards(body, prov, errs):
+            t = g.term
+            if not flow.mentions(t, decoded_value):
+                continue
+            if allow_zero and t[0] == "call" and (t[1] or "").endswith("::is_zero"):
+                continue
+            bad = bad or g
+        rep.check(rule, "%s::try_from|refusals are structural" % short, bad is None, "no refusal decided by a decoded value" + (" (other than the two is_zero tests)" if allow_zero else ""),
+                  "the decoder refuses a PDU on the value of a field (%s): the encoder writes that value, so the library cannot read back what it "
+                  "sends" % (flow.fmt(bad.term)[:90] if bad else ""), body.loc(bad.line) if bad else body.loc(), obligation=True)
+    if n < 2:
+        rep.violation(rule, "floor-request-decoders", "%d of 2 request decoders found" % n)
+
+
 def pair(ctx, rep, rule):
     """decode(a, &h): a and h are the two components of one BerHeader::from_ber result."""
     facts = ctx.facts
